@@ -5,7 +5,8 @@ import PytaskProofs.Lemmas.Capture
 Property theorems only. A build is `runBuild cfg mods ios st0` (M10, `PytaskModel/Capture.lean`): the
 `pytask_post_parse` implementations in pluggy order, collection, the `pytask_collect_log` wrapper, one
 `task_capture` window per entered hook of every executed task (`phaseList ios`, in execution order, whatever
-that order is), then the `pytask_unconfigure` implementations. All statements quantify over every initial
+that order is), then the `pytask_unconfigure` implementations (since commit 124aca8 including `capture`, which stops the capture
+manager). All statements quantify over every initial
 process state `st0` in which descriptors 0-2 are open and `sys.stdout` / `sys.stderr` are the interpreter's own
 streams (`StdW`), every list of tasks, hooks and writes, and every payload.
 
@@ -25,8 +26,8 @@ theorem C14_fd (cfg : Cfg) (st0 : St) (mods : List ModSpec) (ios : List TaskIO)
     (runBuild cfg mods ios st0).secs = (phaseList ios).flatMap (Phase.secs (fun _ => true)) ∧
     (∀ f, f < st0.w.os.files.length → (runBuild cfg mods ios st0).w.os.file f = st0.w.os.file f) ∧
     (runBuild cfg mods ios st0).w.fault = false := by
-  obtain ⟨p, ins, r, _, _, _, _, _, h1, h2, _⟩ := build_fd cfg st0 mods ios hm hcf hw
-  exact ⟨h1, h2, r.nofault⟩
+  obtain ⟨_, h1, h2, _, _, h3, _⟩ := build_fd cfg st0 mods ios hm hcf hw
+  exact ⟨h1, h2, h3⟩
 
 /-- **C14_sys.** With `capture=sys` the sections hold exactly the Python-level writes (`print`,
 `sys.std*.write`) of each window, and every file `f` ends up with its old content followed by exactly the
@@ -39,8 +40,8 @@ theorem C14_sys (cfg : Cfg) (st0 : St) (mods : List ModSpec) (ios : List TaskIO)
     (∀ f, (runBuild cfg mods ios st0).w.os.file f = st0.w.os.file f ++
       outText (fun c => !c.isPy && ((!c.isErr && t1 == f) || (c.isErr && t2 == f))) (allWrites (phaseList ios))) ∧
     (runBuild cfg mods ios st0).w.fault = false := by
-  obtain ⟨p, ins, r, pt, h1, h2, h3, h4, _⟩ := build_sys cfg st0 mods ios false (by simp [hm]) hcf hw
-  refine ⟨p.t1, p.t2, h1, h2, h3, ?_, r.nofault⟩
+  obtain ⟨t1, t2, h1, h2, _, h3, h4, _, _, h5, _⟩ := build_sys cfg st0 mods ios false (by simp [hm]) hcf hw
+  refine ⟨t1, t2, h1, h2, h3, ?_, h5⟩
   intro f; rw [h4 f]; simp
 
 /-- **C14_tee.** With `capture=tee-sys` the sections are as for `sys`, and the real streams additionally receive
@@ -52,8 +53,8 @@ theorem C14_tee (cfg : Cfg) (st0 : St) (mods : List ModSpec) (ios : List TaskIO)
     (∀ f, (runBuild cfg mods ios st0).w.os.file f = st0.w.os.file f ++
       outText (fun c => (!c.isErr && t1 == f) || (c.isErr && t2 == f)) (allWrites (phaseList ios))) ∧
     (runBuild cfg mods ios st0).w.fault = false := by
-  obtain ⟨p, ins, r, pt, h1, h2, h3, h4, _⟩ := build_sys cfg st0 mods ios true (by simp [hm]) hcf hw
-  refine ⟨p.t1, p.t2, h1, h2, h3, ?_, r.nofault⟩
+  obtain ⟨t1, t2, h1, h2, _, h3, h4, _, _, h5, _⟩ := build_sys cfg st0 mods ios true (by simp [hm]) hcf hw
+  refine ⟨t1, t2, h1, h2, h3, ?_, h5⟩
   intro f; rw [h4 f]; simp
 
 /-- **C14_no.** With `capture=no` there are no sections and the real streams receive everything, in write
@@ -65,8 +66,8 @@ theorem C14_no (cfg : Cfg) (st0 : St) (mods : List ModSpec) (ios : List TaskIO)
     (∀ f, (runBuild cfg mods ios st0).w.os.file f = st0.w.os.file f ++
       outText (fun c => (!c.isErr && t1 == f) || (c.isErr && t2 == f)) (allWrites (phaseList ios))) ∧
     (runBuild cfg mods ios st0).w.fault = false := by
-  obtain ⟨t1, t2, r, h1, h2, h3, h4, _⟩ := build_no cfg st0 mods ios hm hcf hw
-  exact ⟨t1, t2, h1, h2, h3, h4, r.nofault⟩
+  obtain ⟨t1, t2, h1, h2, _, h3, h4, _, _, h5, _⟩ := build_no cfg st0 mods ios hm hcf hw
+  exact ⟨t1, t2, h1, h2, h3, h4, h5⟩
 
 /-- **C14_iso** (all methods). Every section of the finished build belongs to one window of the task it is
 attributed to, carries that hook's label, and its text consists of nothing but the captured writes that this task
@@ -131,7 +132,7 @@ private def ios0 : List TaskIO :=
         ("pytask_execute_task_teardown", [])], []⟩,
    ⟨8, [("pytask_execute_task_setup", []), ("pytask_execute_task", [⟨.pyOut, [120]⟩])], []⟩]
 
-example : StdW w0 := ⟨⟨⟨0, by decide, by decide⟩, ⟨1, by decide, by decide⟩, ⟨2, by decide, by decide⟩⟩, rfl, rfl, rfl⟩
+example : StdW w0 := ⟨⟨⟨0, by decide⟩, ⟨1, by decide⟩, ⟨2, by decide⟩⟩, rfl, rfl, rfl⟩
 
 example : (runBuild { method := .fd } [] ios0 { w := w0 }).secs
     = [⟨7, "call", false, [104, 105, 33]⟩, ⟨7, "call", true, [10, 101]⟩, ⟨8, "call", false, [120]⟩] := by decide +kernel
